@@ -81,6 +81,51 @@ def run_once(name, space, table_fn, seed, nth, ambient, n_iter, cfg, feas=None):
 NESTED = set(gen.POPULATION) | {"PowellsMethod"}      # classes whose nested optimizers draw their own seed
 
 
+CROSS_SCRIPT = r"""
+import sys, json, hashlib, io, contextlib
+import numpy as np
+import gradient_free_optimizers as gfo
+names, slow = json.loads(sys.argv[1]), set(json.loads(sys.argv[2]))
+space = {"alpha": np.arange(6), "beta": np.arange(6), "gamma": np.arange(6)}
+def f(p):
+    return -float((p["alpha"] - 2) ** 2 + (p["beta"] - 3) ** 2 + (p["gamma"] - 1) ** 2)
+out = {}
+for n in names:
+    try:
+        o = getattr(gfo, n)(space, random_state=7)
+        with contextlib.redirect_stdout(io.StringIO()), contextlib.redirect_stderr(io.StringIO()):
+            o.search(f, n_iter=(12 if n in slow else 30), verbosity=False)
+        out[n] = hashlib.sha1(o.search_data.to_csv().encode()).hexdigest()
+    except Exception as e:
+        out[n] = "EXC " + type(e).__name__
+print("RESULT " + json.dumps(out))
+"""
+
+
+def cross_process(ctx):
+    """the same search with the same random_state in two fresh interpreter processes with different string-hash salts (PYTHONHASHSEED):
+    nothing in a run may depend on the iteration order of a set / dict of strings"""
+    import subprocess, sys, os, json
+    res = []
+    for hs in ("1", "2"):
+        env = dict(os.environ, PYTHONHASHSEED=hs)
+        p = subprocess.run([sys.executable, "-c", CROSS_SCRIPT, json.dumps(gen.ALL), json.dumps(gen.SLOW)], env=env, capture_output=True, text=True, timeout=600)
+        line = [l for l in p.stdout.splitlines() if l.startswith("RESULT ")]
+        if not line:
+            raise RuntimeError("cross-process run produced no result: %s" % (p.stderr[-500:],))
+        res.append(json.loads(line[-1][7:]))
+    a, b = res
+    for n in gen.ALL:
+        ctx.monitor_runs += 2
+        ctx.monitor_nontrivial.add((n, "cross-process"))
+        if a.get(n, "").startswith("EXC") or b.get(n, "").startswith("EXC"):
+            ctx.blocked.append(dict(optimizer=n, exc=[a.get(n), b.get(n)]))
+        elif a.get(n) != b.get(n):
+            ctx.violation(dict(kind="not-reproducible-across-processes", optimizer=n),
+                          dict(optimizer=n, random_state=7, space="alpha, beta, gamma = arange(6)", hash_salts=[1, 2], digests=[a.get(n), b.get(n)]),
+                          "%s(random_state=7): the same search gives different search_data in two interpreter processes started with PYTHONHASHSEED=1 and 2" % n)
+
+
 def run(ctx):
     u = ctx.unit("K:seeding events of construction", "K",
                  "constructing every optimizer class (random_state in {None, int}, nth_process in {None, 0, 2}, populations, "
@@ -92,7 +137,8 @@ def run(ctx):
                         "search_data / best_score / best_para (with another instance of the same class run in between on a space of another dimension); a random_state=None run is reproduced by random_state=random_seed "
                         "(nth_process None or 0); random_seed == random_state + nth_process; all 22 optimizers (sklearn surrogates, "
                         "populations, nested helpers), constraints, rand_rest_p, sampling, max_sample_size below the space size; population optimizers also constructed twice with the very same "
-                        "initialize object / the omitted default and a population above the number of initial positions; distinct by (optimizer, seed, config)")
+                        "initialize object / the omitted default and a population above the number of initial positions; every optimizer also in two fresh interpreter "
+                        "processes with different string-hash salts; distinct by (optimizer, seed, config)")
     ctx.assumptions.append("absence of entropy sources other than the two global generators cannot be proved in a model: it is covered by the "
                            "seeding-event log and the paired-run monitor")
     rng = ctx.sub_rng("c07")
@@ -194,6 +240,8 @@ def run(ctx):
                 if jsonable(c["data"]) != jsonable(d["data"]) or c["best_score"] != d["best_score"]:
                     ctx.violation(dict(kind="replay-differs", optimizer=name), dict(optimizer=name, random_seed=c["random_seed"], nth_process=nth, cfg=jsonable(cfg)),
                                   "%s: a random_state=None run is not reproduced by random_state=random_seed=%r" % (name, c["random_seed"]))
+    import common as _common
+    _common.guarded(ctx, "cross-process runs", cross_process, ctx)
     u.samples = cases[:3]
     hdr = "Require Import Rng."
     failing, err = coq_eval_cases(u.name, hdr, "bool", lits, "fun b => b", shard=200)
